@@ -3,8 +3,8 @@
 # Like try_mutant.sh but never touches /repo or /verif's evidence: the patch is applied to a scratch worktree of /repo HEAD and the checks of a
 # private clone of /verif (synchronised with /verif HEAD first) run against it through RELIC_REPO.  Safe while other checks use /repo.
 P=$1; shift
-T=${MT_TAG:-mt}; W=/tmp/$T-wt; C=/var/tmp/agents/muttest/verif
-[ -d $C ] || sh /verif/tools/mkagent.sh muttest >/dev/null
+T=${MT_TAG:-mt}; W=/tmp/$T-wt; C=/var/tmp/agents/muttest-$T/verif   # MT_TAG: one clone per tag, so several runs can go on at once
+[ -d $C ] || sh /verif/tools/mkagent.sh muttest-$T >/dev/null
 git -C $C fetch -q /verif HEAD 2>/dev/null && git -C $C reset -q --hard FETCH_HEAD
 git -C /repo worktree remove --force $W 2>/dev/null
 git -C /repo worktree add -q --detach $W HEAD || exit 2
